@@ -6,7 +6,7 @@ from vlib import *
 
 FLOW_INVS = ["TypeOK", "C04_Once", "C04_Prefix", "C04_AtReturn", "C04_Tasks", "C05_NoEarly", "C06_Bound",
              "C08_Order", "C09_FailStops", "C09_NoSilent", "C02_NoReexec", "C16_Closure"]
-MON_INVS = ["M_C04_Once", "M_C04_OnlyExpected", "M_C04_AtReturn", "M_C05_NoEarly", "M_C05_NoLateWork", "M_C06_Bound", "M_C08_Order",
+MON_INVS = ["M_C04_Once", "M_C04_OnlyExpected", "M_C04_AtReturn", "M_C05_NoEarly", "M_C05_NoLateWork", "M_C06_Bound", "M_C08_Order", "M_C08_PerUpstream",
             "M_C09_NotPublished", "M_C09_NoSilent", "M_C09_EndStatus", "M_C02_NoReexec", "M_C16_Closure"]
 
 def prop_of_invariant(name):
